@@ -50,13 +50,28 @@ _R = 'one operation on an arbitrary well-formed Repr: inline (_i: capacity 1/2, 
      'the stated concrete capacity (_hN: symbolic length 3..=N, sign, contents; N <= 9); from_buffer: buffer capacity ' \
      '_cN, length <= 7; ones: every n in the stated range (0..=200 in total)'
 _REPR = _h(_scan('int_repr.rs', 'vk_int_repr_'), _R)
+# heavier instances (40 s .. 5 min each on a loaded machine) and the one-by-one `ones` loops, which repeat
+# vk_int_repr_ones_any_* with concrete allocation sizes
+for _n in ['from_buffer_c5', 'from_buffer_c8', 'from_ref_h6', 'clone_h4', 'clone_h6', 'clone_from_h4_h7',
+           'clone_from_h5_h7', 'clone_from_h6_h7', 'clone_from_h8_h7', 'clone_from_h9_h7', 'clone_from_h7_h3',
+           'clone_from_h9_h4', 'clone_from_i1_h3', 'clone_from_i1_h7', 'clone_from_i2_h7', 'ones_0_66', 'ones_67_133',
+           'ones_134_200']:
+    _REPR['vk_int_repr_' + _n]['tier'] = 'thorough'
 for _n in _REPR:
     if '_clone' in _n:
         _REPR[_n]['props'] = ['C17', 'C15']
     else:
         _REPR[_n]['props'] = ['C17', 'C05']
 
+_CMP = _h(_scan('int_cmp.rs', 'vk_int_cmp_'),
+          'magnitudes of at most 3 words (TypedReprRef: 4), full 64-bit symbolic words, both signs; Repr operands built '
+          'by from_word / from_dword / from_buffer (heap capacities 3..=6)')
+
 KANI = {
+    'int_cmp': {
+        'package': 'dashu-int', 'target': 'integer/src/cmp.rs', 'file': 'int_cmp.rs',
+        'harnesses': _CMP,
+    },
     'int_repr': {
         'package': 'dashu-int', 'target': 'integer/src/repr.rs', 'file': 'int_repr.rs',
         'harnesses': _REPR,
@@ -68,4 +83,7 @@ KANI = {
 }
 
 PROP_UNITS = {
+    'C17': {'kani': ['int_buffer', 'int_repr']},
+    'C05': {'kani': ['int_repr']},
+    'C15': {'kani': ['int_repr']},
 }
